@@ -17,7 +17,8 @@ RULE = ("(a) the row sequence of valid streams (pyjelly- and reference-producer-
         "rv.wire; the flat parse of every re-partitioning must equal the flat parse of the original. (b) grouped parsing of "
         "the same bytes: number of sinks == number of frames, sink i holds exactly frame i's statements, concatenation == "
         "flat parse, and the caller's ContextVar shows frame i's metadata when sink i is received, when the sink factory for frame i "
-        "is called, and at the top of a per-frame loop over parse_triples_stream / parse_quads_stream. (c) sequences of 1-12 "
+        "is called, and at the top of a per-frame loop over parse_triples_stream / parse_quads_stream; also with a consumer that takes "
+        "every sink inside its own contextvars.copy_context().run() (<= 40 frames) or on its own thread (<= 6 frames). (c) sequences of 1-12 "
         "graphs/datasets (some empty, some with more rows than the default frame size) written through ONE shared stream with each "
         "grouped logical type - requested through logical_type or through an explicit GraphsFrameFlow()/DatasetsFrameFlow() object - via "
         "grouped_stream_to_frames / _to_file of both integrations: frames carrying >= 1 statement row == non-empty inputs, "
@@ -134,14 +135,30 @@ def check_reframing(ctx, rng, vs, integs):
 
 
 def check_grouped(ctx, integ, data, frames, ref, flat_events):
+    consumers = ["plain"] + (["context"] if len(frames) <= 40 else []) + (["thread"] if len(frames) <= 6 else [])
+    for consumer in consumers:
+        w = _check_grouped(ctx, integ, data, frames, ref, flat_events, consumer)
+        if w is not None:
+            if consumer != "plain":
+                w["consumer"] = consumer
+                w["summary"] = (f"[every sink taken in its own {'contextvars.Context' if consumer == 'context' else 'thread'}] "
+                                + w["summary"])
+            return w
+    return None
+
+
+def _check_grouped(ctx, integ, data, frames, ref, flat_events, consumer):
     cv: ContextVar = ContextVar("rv_frame_metadata", default={"<unset>": b""})
     sinks = []
     try:
-        for sts, nss, meta in pj.iter_grouped(integ, data, frame_metadata=cv):
+        it = pj.iter_grouped(integ, data, frame_metadata=cv) if consumer == "plain" else \
+            pj.iter_grouped_stepped(integ, data, cv, consumer)
+        for sts, nss, meta in it:
             sinks.append((T.norm_events(sts), nss, meta))
     except Exception as e:  # noqa: BLE001
         return {"clause": "grouped-parse-raised", "summary": f"{integ}: {type(e).__name__}: {e}"}
     ctx.observe("grouped-parses")
+    ctx.observe(f"grouped-consumer:{consumer}")
     if len(sinks) != len(frames):
         return {"clause": "sink-count", "summary": f"{integ}: {len(sinks)} sinks for {len(frames)} frames"}
     concat = []
